@@ -36,12 +36,12 @@ def jobs(unit, tier, only=None):
             outside = ['!(%s)' % r for _, r in regs]
             out.append(Job('c11_L%d_%s' % (L, m.id), 'FixedString<L>::' + m.call, 'cw_' + m.id,
                            fs.make_build(unit, m, L, K, True, methods, outside), backend='sat',
-                           unwind=K + L + 4, timeout=600, instance={'L': L, 'K': K, 'excluded_regions': [r for r in outside]},
+                           unwind=K + L + 4, timeout=600 if tier == 'quick' else 3000, instance={'L': L, 'K': K, 'excluded_regions': [r for r in outside]},
                            bounded='source strings <= L+3 characters'))
             for fid, r in regs:
                 out.append(Job('c11_L%d_%s@%s' % (L, m.id, fid), 'FixedString<L>::' + m.call, 'cw_' + m.id,
                                fs.make_build(unit, m, L, K, True, methods, ['/*in*/ ' + r]), backend='sat',
-                               unwind=K + L + 4, timeout=600, instance={'L': L, 'K': K, 'inside_region': r},
+                               unwind=K + L + 4, timeout=600 if tier == 'quick' else 3000, instance={'L': L, 'K': K, 'inside_region': r},
                                bounded='source strings <= L+3 characters', finding_region=fid))
     if only:
         out = [j for j in out if only in j.name]
